@@ -1081,6 +1081,17 @@ def check_service(ctx):
 
 
 _T = "    {}.upon(_Client.{}).{}.returns(None)\n"
+# round-3 shape: behaviour moved onto _Core methods (silent) / the same shape with the defect (mutant)
+_MOVE_CALL = (CS, "        s.failedAttempts += 1\n        delay = s.timeoutForAttempt(s.failedAttempts)\n", "        delay = s.countFailureAndAskPolicy()\n")
+
+
+def _move_method(body):
+    return (CS, "    def cancelConnectWaiters(self) -> None:\n", "    def countFailureAndAskPolicy(self) -> float:\n" + body + "\n    def cancelConnectWaiters(self) -> None:\n")
+
+
+_FIRE_HELPER = (CS, "def makeMachine() -> Callable[[_Core], _Client]:\n", "def _fireEach(deferreds, result):\n    for d in deferreds:\n        d.callback(result)\n\n\ndef makeMachine() -> Callable[[_Core], _Client]:\n")
+_UNAWAIT_OLD = "        self.awaitingConnected, waiting = [], self.awaitingConnected\n        for w, remaining in waiting:\n            w.callback(value)\n"
+
 MUTANTS = [
     Mutant("row-removed-connected-disconnected", CS, "    Connected.upon(_Client._clientDisconnected).to(Waiting).returns(None)\n", "", expect_rule="matrix/no-rejected-event"),
     Mutant("row-removed-waiting-reconnect", CS, "    Waiting.upon(_Client._reconnect).to(Connecting).returns(None)\n", "", expect_rule="matrix/no-rejected-event"),
@@ -1135,6 +1146,10 @@ MUTANTS = [
            expect_rule="service/forwards-to-machine"),
     Mutant("revert-F58w-stop-before-start-cancels-waiters", CS, "    @pep614(Init.upon(_Client.stop).to(Stopped))\n    def stopBeforeStart(c: _Client, s: _Core) -> Deferred[None]:\n        # whenConnected may have been called before the service was started.\n        s.cancelConnectWaiters()\n        return succeed(None)\n\n    @pep614(Stopped.upon(_Client.stop).to(Stopped))\n",
            "    @pep614(Init.upon(_Client.stop).to(Stopped))\n    @pep614(Stopped.upon(_Client.stop).to(Stopped))\n", expect_rule="waiters/resolved-on-entry"),
+    Mutant("moved-method-asks-policy-before-counting", CS, _MOVE_CALL[1], _MOVE_CALL[2],
+           more=[_move_method("        answer = self.timeoutForAttempt(self.failedAttempts)\n        self.failedAttempts += 1\n        return answer\n")], expect_rule="retry/delay-counts-consecutive-failures"),
+    Mutant("fire-helper-over-the-live-list", CS, _UNAWAIT_OLD, "        _fireEach([w for w, _ in self.awaitingConnected], value)\n        self.awaitingConnected = []\n",
+           more=[_FIRE_HELPER], expect_rule="waiters/"),
     Mutant("service-start-unguarded-double", CS, "        super().startService()\n        self._machine.start()\n", "        super().startService()\n", expect_rule="service/forwards-to-machine"),
 ]
 SILENT = [
@@ -1159,5 +1174,8 @@ SILENT = [
     Silent("stop-transitions-share-a-local-helper", CS, "        waited = s.waitForStop()\n        attempt.cancel()\n        return waited\n", "        return haltThenWait(s, attempt.cancel)\n",
            more=[(CS, "        waited = s.waitForStop()\n        protocol._transport.loseConnection()\n        return waited\n", "        return haltThenWait(s, protocol._transport.loseConnection)\n"),
                  (CS, "    # States:\n", "    def haltThenWait(s: _Core, halt: Callable[[], object]) -> Deferred[None]:\n        waited = s.waitForStop()\n        halt()\n        return waited\n\n    # States:\n")]),
+    Silent("retry-bookkeeping-moved-to-a-core-method", CS, _MOVE_CALL[1], _MOVE_CALL[2],
+           more=[_move_method("        self.failedAttempts += 1\n        return self.timeoutForAttempt(self.failedAttempts)\n")]),
+    Silent("firing-through-a-module-helper", CS, _UNAWAIT_OLD, "        waiting, self.awaitingConnected = self.awaitingConnected, []\n        _fireEach([w for w, _ in waiting], value)\n", more=[_FIRE_HELPER]),
     Silent("failure-limit-rewritten", CS, "            elif remaining <= 1:\n", "            elif not remaining > 1:\n"),
 ]
